@@ -84,7 +84,7 @@ def specSuspended (trs : List TrigRec) (tid : Nat) : Bool :=
   | none => false
 
 def runCase (c : Case) : Verdict := Id.run do
-  let mut v : Verdict := {}
+  let mut v : Verdict := { variant := "fixed" }
   let mut s : State := init
   let mut o : OState := {}
   let mut nBuilt := 0
@@ -100,14 +100,16 @@ def runCase (c : Case) : Verdict := Id.run do
     let (obsRes, obsResumed) := parseObs obsToks
     -- ---------- K ----------
     let (s', out) := step s op
-    -- the environment of a hook-fired trigger (F-C20-1): faithful = unchanged code, fixed = poison-tolerant drop path
+    -- the environment of a hook-fired trigger. F-C20-1 is repaired (/repo 0647206: drop paths tolerate a poisoned
+    -- mutex): the committed variant is `fixedHook`; an implementation that matches the old behaviour (`abort`) has
+    -- fallen back behind the repair: K mismatch, `variant=regressed:F-C20-1`, and the oracle fails with the pattern.
     let viaHook := dropfiles && backend == "sim" && (match op with | .triggerNoop ev => ev.ty == 2 | _ => false)
     let showHook := fun (h : HookRes) => match h with | .abort => "abort" | .res r => showRes r
-    let wantFaithful := showHook (hookOutcome faithfulHook viaHook out.res)
-    let wantFixed := showHook (hookOutcome fixedHook viaHook out.res)
-    let want := if obsRes == wantFixed && wantFixed != wantFaithful then wantFixed else wantFaithful
-    if wantFixed != wantFaithful then
-      v := { v with variant := if obsRes == wantFixed then "fixed" else "faithful", cov := addCov v.cov "hookpanic" }
+    let wantOld := showHook (hookOutcome faithfulHook viaHook out.res)
+    let want := showHook (hookOutcome fixedHook viaHook out.res)
+    if want != wantOld then
+      v := { v with cov := addCov v.cov "hookpanic" }
+      if obsRes == wantOld then v := { v with variant := "regressed:F-C20-1" }
     let wantResumed := sortNat out.resumed
     if v.kOk && (want != obsRes || wantResumed != obsResumed) then
       let d := s!"K want=[{want} resumed={showNatList wantResumed}] got=[{obsRes} resumed={showNatList obsResumed}]"
